@@ -816,3 +816,278 @@ class C09(Base):
 
     def nontrivial(self, case, line):
         return case.startswith('wr ') and '.' in case.rsplit(' ', 1)[1]
+
+
+# ====================================================================== frame pools
+import frames as FR
+
+
+def frame_pool(rng, tier, n_random=None, with_mut=True, with_faults=True, with_spell=True):
+    """list of (fam, bytes, tag, minimal) ; tag in valid/spell/mut/fault"""
+    out = []
+    ps, dist = both_pools(rng, tier, n_random=n_random if n_random is not None else (40 if tier == 'quick' else 600))
+    for fam, p in ps:
+        b = pk.encode(fam, p)
+        big = len(b) > 4000
+        out.append((fam, b, 'valid', True))
+        if big and rng.random() < 0.7:
+            continue
+        if with_spell:
+            for sb, minimal in FR.spellings(fam, p, rng):
+                out.append((fam, sb, 'spell', minimal))
+        if with_mut:
+            for m in FR.mutations(b, rng, 4 if tier == 'quick' else 10):
+                out.append((fam, m, 'mut', None))
+        if with_faults and rng.random() < (0.25 if tier == 'quick' else 0.6):
+            cat = FR.catalogue(fam, p, rng)
+            for row, fb, exp in rng.sample(cat, min(len(cat), 12)):
+                out.append((fam, fb, 'fault:' + row, row not in ('rl-5-bytes', 'property-length-5-bytes', 'subid-5-bytes')))
+    return out, dist
+
+
+def poll_packet(f):
+    r = f.get('poll', '')
+    return r[3:] if r.startswith('ok ') else None
+
+
+# ====================================================================== C03
+REP3 = [0, 1, 2, 3, 4, 5, 8, 16, 31, 38, 47, 64, 127, 128, 129, 192, 224, 255]
+
+
+@register
+class C03(Base):
+    id = 'C03'
+    ops = ['dec', 'sched']
+    rule = ('every decoder entry point (Header::decode, blocking, async, poll; v3 and v5) in both build profiles on: all byte '
+            'strings of length <= 2 (exhaustive), all 3-byte strings with the third byte from 18 representative values '
+            '(thorough: plus every 2-byte header followed by short random bodies), structure-aware corruptions of valid packets '
+            '(bit flips, length edits, truncation, extension, splicing, maximal remaining lengths), random strings, and random '
+            'delivery schedules for the poll decoder. The judge rejects PANIC, TIMEOUT and crashes. '
+            'Non-trivial: input of >= 2 bytes.')
+    exhaustive = {}
+
+    def cases(self, rng, tier):
+        cs = self.corpus()
+        dist = {}
+        for fam in ('v3', 'v5'):
+            cs.append('dec %s x' % fam)
+            for a in range(256):
+                cs.append('dec %s x%02x' % (fam, a))
+                for b in range(256):
+                    cs.append('dec %s x%02x%02x' % (fam, a, b))
+                    hist(dist, 'len2')
+                    if tier == 'thorough' or a % 16 in (0, 2) or b < 6:
+                        for c in REP3:
+                            cs.append('dec %s x%02x%02x%02x' % (fam, a, b, c))
+                            hist(dist, 'len3')
+            # every 2-byte header with short bodies
+            for a in range(256):
+                for rl in (1, 2, 3, 4, 5, 7, 12):
+                    for _ in range(1 if tier == 'quick' else 6):
+                        body = bytes(rng.choice([0, 0, 1, 2, 4, 0x7f, 0x80, 0xff, rng.getrandbits(8)]) for _ in range(rl))
+                        cs.append('dec %s %s' % (fam, pk.hx(bytes([a, rl]) + body)))
+                        hist(dist, 'hdr+body')
+            # maximal remaining lengths
+            for a in (0x10, 0x20, 0x30, 0x32, 0x40, 0x82, 0x90, 0xa2, 0xe0, 0xf0):
+                for rlb in (b'\xff\xff\xff\x7f', b'\xff\xff\x7f', b'\x80\x80\x80\x01'):
+                    cs.append('dec %s %s' % (fam, pk.hx(bytes([a]) + rlb + b'\x00\x04MQTT\x04\x02')))
+                    hist(dist, 'maxlen')
+        pool, _ = frame_pool(rng, tier)
+        for fam, b, tag, _ in pool:
+            if tag != 'valid':
+                cs.append('dec %s %s' % (fam, pk.hx(b)))
+                hist(dist, tag.split(':')[0])
+        for _ in range(3000 if tier == 'quick' else 100000):
+            b = bytes(rng.getrandbits(8) for _ in range(rng.randint(3, 40)))
+            cs.append('dec %s %s' % (rng.choice(['v3', 'v5']), pk.hx(b)))
+            hist(dist, 'random')
+        # schedules on corrupted frames
+        muts = [(fam, b) for fam, b, tag, _ in pool if tag == 'mut' and 0 < len(b) < 60]
+        for fam, b in rng.sample(muts, min(len(muts), 1500 if tier == 'quick' else 20000)):
+            cs.append('sched %s %s %s' % (fam, random_schedule(b, rng), rng.choice(['eof', 'k4'])))
+            hist(dist, 'sched')
+        return cs, dist
+
+    def judge(self, case, line, spec, ctx, i):
+        if 'PANIC' in line:
+            return 'a decoder entry point panicked'
+        return None
+
+    def project(self, case, line):
+        # outcome classes only
+        f = fields(line)
+        def cls(v):
+            return v.split(' ')[0] if v else v
+        return ';'.join('%s=%s' % (k, cls(f.get(k, ''))) for k in ('hdr', 'block', 'async', 'poll', 'res'))
+
+    def nontrivial(self, case, line):
+        return len(case.split()[2]) >= 5
+
+
+def random_schedule(b, rng, pend=0.2, cut=0.4):
+    atoms = []
+    for x in b:
+        if rng.random() < pend:
+            atoms.append('p')
+        atoms.append('b%02x' % x)
+        if rng.random() < cut:
+            atoms.append('c')
+    if rng.random() < pend:
+        atoms.append('p')
+    return '.'.join(atoms) if atoms else '-'
+
+
+# ====================================================================== C12 / C11 / C06
+class DecBase(Base):
+    def dec_cases(self, rng, tier, suffix=False):
+        cs = self.corpus()
+        pool, dist = frame_pool(rng, tier)
+        for fam, b, tag, _ in pool:
+            if suffix and rng.random() < 0.5:
+                b = b + bytes(rng.getrandbits(8) for _ in range(rng.randint(1, 6)))
+            cs.append('dec %s %s' % (fam, pk.hx(b)))
+            hist(dist, 'frames:' + tag.split(':')[0])
+        return cs, dist, pool
+
+
+@register
+class C12(DecBase):
+    id = 'C12'
+    ops = ['dec']
+    rule = ('everything a front-end accepts from: valid packets (multi-byte share names, boundary sizes), legal non-canonical '
+            'spellings, corrupted frames, fault-catalogue frames; the harness walks every field of every returned packet '
+            '(std::str::from_utf8 on each String, the library\'s own is_invalid predicates, every shared-subscription accessor '
+            'under catch_unwind, pid != 0, VarByteInt < 2^28, flagged payload UTF-8). Non-trivial: an accepted input.')
+
+    def cases(self, rng, tier):
+        cs, dist, _ = self.dec_cases(rng, tier)
+        g = pk.Gen(rng)
+        for _ in range(300 if tier == 'quick' else 5000):
+            flt = rng.choice(['$share/你好/+'.encode(), '$share/\U0001F600/a/#'.encode(), b'$share/g//', b'$share/a b/#', g.topic_filter()])
+            for fam, p in (('v3', ('subscribe', 5, [(flt, 1), (g.topic_filter(), 0)])),
+                           ('v5', ('unsubscribe', 5, g.props('unsubscribe'), [g.topic_filter(), flt]))):
+                cs.append('dec %s %s' % (fam, pk.hx(pk.encode(fam, p))))
+                hist(dist, 'shared-filters')
+        return cs, dist
+
+    def judge(self, case, line, spec, ctx, i):
+        f = fields(line)
+        for x in 'bap':
+            v = f.get(x + 'inv', '-')
+            if v not in ('-', 'ok'):
+                return 'packet returned by the %s decoder violates a type invariant: %s' % ({'b': 'blocking', 'a': 'async', 'p': 'poll'}[x], v)
+        return None
+
+    def project(self, case, line):
+        f = fields(line)
+        return ';'.join('%s=%s' % (k, f.get(k, '').split(':')[0]) for k in ('block', 'async', 'poll', 'binv', 'ainv', 'pinv'))
+
+    def nontrivial(self, case, line):
+        return '=ok ' in line
+
+
+@register
+class C11(DecBase):
+    id = 'C11'
+    ops = ['dec']
+    rule = ('everything any front-end accepts from: valid packets, short forms spelled out, permuted / interleaved properties, '
+            'non-minimal variable byte integers (remaining length, property length, subscription identifier), corrupted frames '
+            'that survive, and lenient framing (declared remaining length shorter or longer than the body, for the blocking '
+            'and async front-ends). Judge: re-encode succeeds, decodes to the same packet on all front-ends, is no longer than '
+            'the bytes consumed; failures inside the KF2 class (blocking/async, consumed > declared frame) are the known finding. '
+            'Non-trivial: an accepted non-canonical input.')
+
+    def cases(self, rng, tier):
+        cs, dist, pool = self.dec_cases(rng, tier)
+        # lenient framing: declared length shorter / longer than the body
+        for fam, b, tag, _ in pool:
+            if tag != 'valid' or len(b) > 2000 or rng.random() < 0.5:
+                continue
+            hl = FR.pk_header_len(b)
+            rl = len(b) - hl
+            for new in {max(0, rl - 1), rl + 1, 0, rl + 130, 2}:
+                if new != rl:
+                    cs.append('dec %s %s' % (fam, pk.hx(b[:1] + pk.vbi(new) + b[hl:] + b'\x00\x00')))
+                    hist(dist, 'lenient-framing')
+        cs.append('dec v3 ' + pk.hx(b'\x10\x00\x00\x04MQTT\x04\x02\x00\x0a\x00\x96' + b'c' * 150))    # KF2 witness (a)
+        return cs, dist
+
+    def judge(self, case, line, spec, ctx, i):
+        f = fields(line)
+        b = bytes.fromhex(case.split()[2][1:])
+        fi = frame_info(b)
+        for x, fe, used in (('b', 'block', 'aused'), ('a', 'async', 'aused'), ('p', 'poll', 'pused')):
+            re_ = f.get(x + 're', '-')
+            if re_ == '-' or not f.get(fe, '').startswith('ok '):
+                continue
+            consumed = int(f.get(used)) if f.get(used, '?').isdigit() else None
+            in_kf2 = x in 'ba' and fi is not None and consumed is not None and consumed > fi[0] + fi[1]
+            parts = re_.split(',')
+            bad = None
+            if not parts[0].startswith('ok '):
+                bad = 're-encoding the packet accepted by the %s decoder fails: %s' % (fe, parts[0][:60])
+            else:
+                n = (len(parts[0]) - 4) // 2
+                if parts[1] != 'ok %d' % n:
+                    bad = 'encode_len of the accepted packet is %s, encode produced %d bytes' % (parts[1], n)
+                elif parts[2] != '1':
+                    bad = 'the re-encoding does not decode to the same packet on every front-end'
+                elif consumed is not None and n > consumed:
+                    bad = 're-encoding has %d bytes, the %s decoder consumed %d' % (n, fe, consumed)
+            if bad:
+                if in_kf2 and ('fails' in bad or 'consumed' in bad):
+                    return ('KF', 'KF2', 'frame overrun accepted by the %s front-end: %s' % (fe, bad))
+                return bad
+        return None
+
+    def nontrivial(self, case, line):
+        return '=ok ' in line
+
+
+@register
+class C06(DecBase):
+    id = 'C06'
+    ops = ['dec']
+    rule = ('byte strings that start with a complete frame: valid encodings, spellings, fault-catalogue frames, corruptions, '
+            'random bytes, with and without random suffixes; all error variants. Judge on the implementation\'s three answers: '
+            'poll accepts P => blocking and async return P; poll rejects with E != InvalidRemainingLength => both return E; '
+            'blocking == async with EOF mapped to incomplete. Non-trivial: complete frame.')
+
+    def cases(self, rng, tier):
+        cs, dist, _ = self.dec_cases(rng, tier, suffix=True)
+        for _ in range(4000 if tier == 'quick' else 100000):
+            fam = rng.choice(['v3', 'v5'])
+            a = rng.choice([0x10, 0x20, 0x30, 0x32, 0x3d, 0x40, 0x50, 0x62, 0x70, 0x82, 0x90, 0xa2, 0xb0, 0xc0, 0xd0, 0xe0, 0xf0, rng.getrandbits(8)])
+            rl = rng.randint(0, 24)
+            body = bytes(rng.choice([0, 0, 0, 1, 2, 3, 4, 5, 0x26, 0x1f, rng.getrandbits(8)]) for _ in range(rl))
+            cs.append('dec %s %s' % (fam, pk.hx(bytes([a, rl]) + body + bytes(rng.getrandbits(8) for _ in range(rng.randint(0, 3))))))
+            hist(dist, 'random-frame')
+        return cs, dist
+
+    def judge(self, case, line, spec, ctx, i):
+        f = fields(line)
+        blk, asy, pol = f.get('block', ''), f.get('async', ''), f.get('poll', '')
+        # blocking = async with EOF mapped to incomplete
+        want = 'none' if asy == 'err IoError UnexpectedEof' else asy
+        if blk != want:
+            return 'blocking decoder (%s) is not the async decoder (%s) with EOF mapped to incomplete' % (blk[:80], asy[:80])
+        b = bytes.fromhex(case.split()[2][1:])
+        fi = frame_info(b)
+        if fi is None or len(b) < fi[0] + fi[1]:
+            return None
+        if pol.startswith('ok '):
+            if asy != pol:
+                return 'poll decoder accepts %s but the async decoder returns %s' % (pol[:100], asy[:100])
+        elif pol.startswith('err ') and pol != 'err InvalidRemainingLength':
+            if asy != pol:
+                return 'poll decoder rejects with %s but the async decoder returns %s' % (pol[:100], asy[:100])
+        return None
+
+    def project(self, case, line):
+        f = fields(line)
+        return ';'.join('%s=%s' % (k, f.get(k, '')) for k in ('hdr', 'block', 'async', 'poll'))
+
+    def nontrivial(self, case, line):
+        b = bytes.fromhex(case.split()[2][1:])
+        fi = frame_info(b)
+        return fi is not None and len(b) >= fi[0] + fi[1]
